@@ -378,8 +378,13 @@ impl Archive {
         file.read_exact(&mut footer_size_bytes)?;
         let footer_size = u64::from_le_bytes(footer_size_bytes);
 
-        // Seek to start of footer
-        file.seek(SeekFrom::Start(file_size - 8 - footer_size))?;
+        // Seek to start of footer (a truncated or foreign file gives a garbage footer size:
+        // reject it before it is used for arithmetic or as an allocation size)
+        let footer_start = file_size
+            .checked_sub(8)
+            .and_then(|v| v.checked_sub(footer_size))
+            .context("Invalid archive: footer size exceeds file size")?;
+        file.seek(SeekFrom::Start(footer_start))?;
 
         // Read footer into buffer
         let mut footer = vec![0u8; footer_size as usize];
